@@ -152,6 +152,9 @@ class Run:
         cmd = ["go", "build", "-tags", "verif", "-trimpath", "-o", out]
         if race:
             cmd.insert(2, "-race")
+        if os.environ.get("VERIF_COVER_DIR"):
+            # development aid (not used by the registered commands): statement coverage of golib by the drivers
+            cmd[2:2] = ["-cover", "-coverpkg=all"]
         cmd.append("./cmd/harness")
         env = dict(os.environ, **GOENV)
         if race:
@@ -180,6 +183,9 @@ class Run:
         e = dict(os.environ, TZ="UTC")
         if env:
             e.update(env)
+        if os.environ.get("VERIF_COVER_DIR"):
+            os.makedirs(os.environ["VERIF_COVER_DIR"], exist_ok=True)
+            e["GOCOVERDIR"] = os.environ["VERIF_COVER_DIR"]
         try:
             p = subprocess.run(cmd, cwd=out, stdout=subprocess.PIPE, stderr=subprocess.STDOUT, text=True, timeout=timeout, env=e)
         except subprocess.TimeoutExpired:
